@@ -658,7 +658,15 @@ impl<Front: SocketHandler> ConnectionH1<Front> {
                     if let StreamState::Linked(token) = old_state {
                         remove_backend_stream(&mut context.backend_streams, token, stream_id);
                     }
-                    if stream.context.keep_alive_frontend {
+                    // A response delimited by the backend closing its connection
+                    // (neither Content-Length nor chunked, RFC 9112 §6.3 rule 8) has no
+                    // end an HTTP/1 client could see on a connection that stays open:
+                    // it would wait until `front_timeout`, and then read the 408 page
+                    // as more body. Close-delimited toward us means close-delimited
+                    // toward the client.
+                    let close_delimited = stream.back.body_size == kawa::BodySize::Empty
+                        && stream.context.method != Some(crate::protocol::kawa_h1::parser::Method::Head);
+                    if stream.context.keep_alive_frontend && !close_delimited {
                         self.timeout_container.reset();
                         if let StreamState::Linked(token) = old_state {
                             endpoint.end_stream(token, stream_id, context);
